@@ -278,7 +278,8 @@ def judge_case(ctx, case, resp):
     nontrivial = bool({"inexact", "tie", "overflow", "underflow", "underflow-to-zero", "subnormal-result", "clamped", "undefined"} & set(ex.labels)) \
         or edge_operand(a) or (b is not None and edge_operand(b)) or shape in ("tie", "cancel", "sticky")
     ctx.note(key=[op, str(a), str(b)], nontrivial=nontrivial, labels=labels,
-             sample={"op": op, "a": str(a), "b": None if b is None else str(b), "expected": ex.show(), "num": show(gn), "feel": show(gv)})
+             sample={"op": op, "a": str(a), "b": None if b is None else str(b), "expected": ex.show(), "num": show(gn), "feel": show(gv),
+                     "classes": ex.labels} if nontrivial else None)
     ctx.count(len(resp) - 1)
     if fails:
         # an unexplained failure wins over a known one so that it is not hidden behind it
